@@ -25,7 +25,14 @@ SCHEMA = {
             "0B": {"class": "radiator_valve", "sensor": "34:000003", "actuators": ["04:000003"]},
         },
     },
-    "orphans_heat": ["13:000002"],
+    "orphans_heat": ["13:000002", "10:000001"],
+    "orphans_hvac": ["32:000001", "32:000002", "37:000001"],
+}
+KNOWN = {"32:000001": {"class": "FAN"}, "32:000002": {"class": "HUM"}, "37:000001": {"class": "CO2"}, "10:000001": {"class": "OTB"}}
+OTB, FAN, HUM, CO2 = "10:000001", "32:000001", "32:000002", "37:000001"
+_31DA = {
+    1: "00EF007FFF353406D6089808E006A8F000000264640000EFEF15CF159700",
+    2: "00EF007FFF2B27060E0848089605F9F000445800000000EFEF02D2154400",
 }
 UFC = "02:044328"
 V = {1: "07D0", 2: "0834"}  # 20.00, 21.00
@@ -39,6 +46,15 @@ def temp_hex(v, z):
 
 def temp_val(v, z):
     return VAL[v] + ZONES.index(z) / 100
+
+
+def _decoded(frame: str, dev: str, attrs: tuple) -> dict:
+    """Expected attribute values = what the library's own decoder makes of the frame (freshness is the subject here, not decoding)."""
+    from ramses_tx.message import Message
+    from ramses_tx.packet import Packet
+
+    p = Message(Packet(dt(2024, 1, 1), "045 " + frame)).payload
+    return {(dev, a): p[a] for a in attrs if a in p}
 
 
 # --- the alphabet: letter -> (frame, {(entity, attribute): value}) -----------------------------------
@@ -76,6 +92,14 @@ def letters() -> dict:
         for d in ("13:000001", "13:000002"):
             L[f"RLY({d[-1]},{v})"] = (f"RP --- {d} {GWY} --:------ 0008 002 00{'C8' if v == 1 else '00'}", {(d, "relay_demand"): 1.0 if v == 1 else 0.0})
             L[f"ACT({d[-1]},{v})"] = (f" I --- {d} --:------ {d} 3EF0 003 00{'C8' if v == 1 else '00'}FF", {(d, "actuator_state.modulation_level"): 1.0 if v == 1 else 0.0})
+        # an OpenTherm bridge (its RAMSES codes), a ventilation unit, a humidity and a CO2 sensor
+        L[f"OTB_T({v})"] = (f"RP --- {OTB} {GWY} --:------ 3200 003 00{V[v]}", {(OTB, "boiler_output_temp"): VAL[v]})
+        L[f"OTB_RT({v})"] = (f"RP --- {OTB} {GWY} --:------ 3210 003 00{V[v]}", {(OTB, "boiler_return_temp"): VAL[v]})
+        L[f"OTB_SP({v})"] = (f"RP --- {OTB} {GWY} --:------ 22D9 003 00{V[v]}", {(OTB, "boiler_setpoint"): VAL[v]})
+        L[f"OTB_DHW({v})"] = (f"RP --- {OTB} {GWY} --:------ 1260 003 00{V[v]}", {(OTB, "dhw_temp"): VAL[v]})
+        L[f"FAN_DA({v})"] = (f" I --- {FAN} --:------ {FAN} 31DA 030 {_31DA[v]}", _decoded(f" I --- {FAN} --:------ {FAN} 31DA 030 {_31DA[v]}", FAN, ("exhaust_fan_speed", "indoor_humidity", "supply_temp", "exhaust_temp", "bypass_position", "remaining_mins", "fan_info")))
+        L[f"HUM_H({v})"] = (f" I --- {HUM} --:------ {HUM} 12A0 007 00{'2B' if v == 1 else '3F'}08337FFF00", {(HUM, "indoor_humidity"): 0.43 if v == 1 else 0.63})
+        L[f"CO2_L({v})"] = (f" I --- {CO2} --:------ {CO2} 1298 003 00{'0247' if v == 1 else '0300'}", {(CO2, "co2_level"): 583 if v == 1 else 768})
         # the controller's own domain demands (the system keeps these in per-domain tables of its own)
         L[f"TCS_HD({v})"] = (f" I --- {CTL} --:------ {CTL} 3150 002 FC{'64' if v == 1 else '32'}", {("TCS", "heat_demands.FC"): 0.5 if v == 1 else 0.25, ("TCS", "heat_demand"): 0.5 if v == 1 else 0.25})
         for dom in ("FC", "F9", "FA"):
@@ -95,6 +119,7 @@ GROUPS = {
     "setpoint": lambda k: k.startswith(("SP_rp", "SP_arr", "MODE")) or k in ("T_arr(00+01+0B,1)", "TRV_SP(01,2)"),
     "config+window": lambda k: k.startswith(("CFG_rp", "CFG_arr", "WIN")),
     "dhw+system": lambda k: k.startswith(("DHW", "SYS", "TCS_HD")) or k in ("TCS_RD(FC,1)", "TCS_RD(FA,2)") or k in ("T_rp(00,1)", "SP_arr(00+01,2)", "RLY(1,1)"),
+    "otb+hvac": lambda k: k.startswith(("OTB", "FAN", "HUM", "CO2")) or k in ("T_rp(00,1)", "DHW_T_rp(2)"),
     "devices": lambda k: k.startswith(("RLY", "ACT", "TRV")) or k in ("T_rp(00,2)", "SP_rp(01,1)"),
 }
 
@@ -123,7 +148,7 @@ def new_world(dhw: bool = True):
     schema = copy.deepcopy(SCHEMA)
     if not dhw:
         del schema[CTL]["stored_hotwater"]
-    gwy = w.add_gateway(config={"disable_discovery": True, "enforce_known_list": False}, **schema)
+    gwy = w.add_gateway(config={"disable_discovery": True, "enforce_known_list": False}, known_list=dict(KNOWN), **schema)
     w.set_time(dt(2024, 1, 1, 12, 0, 0))
     return w, gwy
 
@@ -291,6 +316,13 @@ ATTR_EXPIRY = [
     ("TCS_HD(2)", ("TCS", "heat_demand")),
     ("TCS_RD(F9,1)", ("TCS", "relay_demands.F9")),
     ("TCS_RD(FA,1)", ("TCS", "relay_demands.FA")),
+    ("OTB_T(1)", (OTB, "boiler_output_temp")),
+    ("OTB_SP(2)", (OTB, "boiler_setpoint")),
+    ("OTB_DHW(1)", (OTB, "dhw_temp")),
+    ("FAN_DA(1)", (FAN, "exhaust_fan_speed")),
+    ("FAN_DA(2)", (FAN, "indoor_humidity")),
+    ("HUM_H(1)", (HUM, "indoor_humidity")),
+    ("CO2_L(2)", (CO2, "co2_level")),
     ("UFC_HD(1)", (UFC, "heat_demand")),
     ("UFC_RD(2)", (UFC, "relay_demand")),
 ]
@@ -340,7 +372,7 @@ def shard_attr_expiry(arg) -> E.Tally:
     return t
 
 
-STAGGER_FAMILIES = ("T_rp", "SP_rp", "MODE", "CFG_rp", "WIN", "RLY", "ACT", "TRV_T", "TRV_SP")
+STAGGER_FAMILIES = ("T_rp", "SP_rp", "MODE", "CFG_rp", "WIN", "RLY", "ACT", "TRV_T", "TRV_SP", "TCS_RD")
 
 
 def shard_staggered(arg) -> E.Tally:
@@ -359,9 +391,7 @@ def shard_staggered(arg) -> E.Tally:
     for f, names in sorted(fam.items()):
         for a in names:
             for b in names:
-                ents_a = {e for (e, _) in L[a][1]}
-                ents_b = {e for (e, _) in L[b][1]}
-                if a == b or ents_a & ents_b:
+                if a == b or set(L[a][1]) & set(L[b][1]):  # (two different attributes: other zone / device / domain)
                     continue
                 for order in ("old-first", "young-first"):
                     j += 1
